@@ -12,6 +12,7 @@ VERIF = os.path.dirname(os.path.dirname(os.path.dirname(os.path.abspath(__file__
 COQ = os.path.join(VERIF, "coq")
 SUBDIRS = ["Base", "Gen", "Model", "Proofs", "Props", "Corr"]
 JOBS = int(os.environ.get("VERIF_JOBS", "16"))
+MEM_KB = int(os.environ.get("VERIF_MEM_KB", str(10 * 1024 * 1024)))
 
 
 class BuildLock:
@@ -72,12 +73,19 @@ def ensure_makefile():
 
 def make(targets, timeout_s=3000):
     """Full .vo build of the given targets (never -vos/-vok).  Returns (ok, log)."""
-    ensure_makefile()
-    cmd = ["timeout", str(timeout_s), "make", "-j%d" % JOBS] + list(targets)
+    # the lock covers only the regeneration of _CoqProject / Makefile / dependencies; the
+    # compilation itself runs outside it so that one slow file does not block other checks.
+    # Each coqc is limited to MEM_KB of address space (a runaway proof search must not take
+    # the machine down).
+    with BuildLock():
+        ensure_makefile()
+        subprocess.run(["timeout", "300", "make", ".Makefile.d"], cwd=COQ, capture_output=True, text=True)
+    mk = "make -j%d %s" % (JOBS, " ".join(targets))
+    cmd = ["timeout", str(timeout_s), "bash", "-c", "ulimit -v %d; %s" % (MEM_KB, mk)]
     t0 = time.time()
     r = subprocess.run(cmd, cwd=COQ, capture_output=True, text=True)
     log = r.stdout + r.stderr
-    return r.returncode == 0, log, " ".join(cmd), time.time() - t0
+    return r.returncode == 0, log, "timeout %d %s" % (timeout_s, mk), time.time() - t0
 
 
 _ERR_RE = re.compile(r'File "\./?([^"]+)", line (\d+), characters')
@@ -119,7 +127,8 @@ def scratch_dir():
 
 
 def coqc_file(path, timeout_s=600):
-    cmd = ["timeout", str(timeout_s), "coqc", "-Q", COQ, "Orso", "-w", "-notation-overridden", path]
+    cmd = ["timeout", str(timeout_s), "bash", "-c",
+           "ulimit -v %d; exec coqc -Q %s Orso -w -notation-overridden %s" % (MEM_KB, COQ, path)]
     r = subprocess.run(cmd, cwd=os.path.dirname(path), capture_output=True, text=True)
     return r.returncode, r.stdout, r.stderr
 
